@@ -253,10 +253,21 @@ package state
 //@   noverify
 //@   sets passed = passInc(old(passed), tx, 4, result0)
 //@   ensures other_maps_untouched: mapsFrame(string, bool, nil)
+// A transaction that rewrites account data (an account's rule, or the account a contract
+// belongs to) is accepted only if EVERY such entry of its write set names an account the
+// signers are identified for - the ones authenticated earlier in this verification or by
+// IdentifyAccount here; one authorised entry opens nothing for the entries after it.
+//@ macro authorisedAcct(t, tx, vid0, a) = (sel(vid0, a) || utils.IdentifyAccount(t.sctx.AclMgr, a, tx.AuthRequire))
 //@ func State.verifyRWSetPermission
-//@   noverify
+//@   property C07
 //@   sets passed = passInc(old(passed), tx, 5, result0)
 //@   ensures other_maps_untouched: mapsFrame(string, bool, verifiedID)
+//@   ensures [C07] every_rewritten_account_is_authorised: result0 && tx != nil && tx.ContractRequests != nil ==> (forall o int, a string :: 0 <= o && o < len(tx.TxOutputsExt) && tx.TxOutputsExt[o].Bucket == "XCAccount" && a == str(tx.TxOutputsExt[o].Key) ==> old(verifiedID[a]) || utils.IdentifyAccount(t.sctx.AclMgr, a, tx.AuthRequire))
+//@   ensures [C07] every_remapped_contract_goes_to_an_authorised_account: result0 && tx != nil && tx.ContractRequests != nil ==> (forall o int, a string :: 0 <= o && o < len(tx.TxOutputsExt) && tx.TxOutputsExt[o].Bucket == "XCContract2Account" && a == str(tx.TxOutputsExt[o].Value) ==> old(verifiedID[a]) || utils.IdentifyAccount(t.sctx.AclMgr, a, tx.AuthRequire))
+//@   loop 1 invariant [C07] write_set_copies_the_outputs: 0 <= $i && $i <= len(tx.TxOutputsExt) && len(writeSet) == $i && (forall k int :: 0 <= k && k < $i ==> writeSet[k] != nil && writeSet[k] <= allocTop() && writeSet[k].Bucket == tx.TxOutputsExt[k].Bucket && writeSet[k].Key == tx.TxOutputsExt[k].Key && writeSet[k].Value == tx.TxOutputsExt[k].Value)
+//@   loop 1 invariant other_maps_untouched_yet: mapsFrame(string, bool, verifiedID)
+//@   loop 2 invariant other_maps_untouched_so_far: mapsFrame(string, bool, verifiedID)
+//@   loop 2 invariant [C07] entries_so_far_authorised: 0 <= $i && $i <= len(writeSet) && len(writeSet) == len(tx.TxOutputsExt) && (forall k int :: 0 <= k && k < len(writeSet) ==> writeSet[k] != nil && writeSet[k].Bucket == tx.TxOutputsExt[k].Bucket && writeSet[k].Key == tx.TxOutputsExt[k].Key && writeSet[k].Value == tx.TxOutputsExt[k].Value) && (forall a string :: verifiedID[a] ==> old(verifiedID[a]) || utils.IdentifyAccount(t.sctx.AclMgr, a, tx.AuthRequire)) && (forall k int :: 0 <= k && k < $i && tx.TxOutputsExt[k].Bucket == "XCAccount" ==> verifiedID[str(tx.TxOutputsExt[k].Key)]) && (forall k int :: 0 <= k && k < $i && tx.TxOutputsExt[k].Bucket == "XCContract2Account" ==> verifiedID[str(tx.TxOutputsExt[k].Value)])
 
 // A transaction is accepted only in versions 1..3 (0 only for the root transaction),
 // never if auto-generated, and only if its id is the hash of its content and the six
